@@ -78,7 +78,7 @@ def run(ctx: common.Run):
     n = 120 if ctx.tier == 'quick' else 1500
     rng = ctx.substream('circuits')
     for i in range(n):
-        mode = rng.choice(['qubit'] * 5 + ['qudit'] * 2 + ['classical'])
+        mode = rng.choice(['qubit'] * 5 + ['qudit'] * 2 + ['classical'] * 2)
         circuit, qids = gen.random_unitary_circuit(
             cirq, rng, max_wires=5 if mode != 'qudit' else 4, qudits=(mode == 'qudit'), max_ops=10, classical=(mode == 'classical')
         )
